@@ -1,5 +1,6 @@
 import G3D.Proofs.KTieKarea
 import G3D.Proofs.KTieKvecLen
+import G3D.Proofs.MethodsTiePolygon
 import G3D.Props.C06
 #print axioms G3D.Props.C06.polygon_area_is_shoelace
 #print axioms G3D.Props.C06.fan_centre_independent
@@ -17,3 +18,5 @@ import G3D.Props.C06
 #print axioms G3D.Props.C06.polyhedron_moved_measures
 #print axioms G3D.KTie.Karea.triangleArea_tie
 #print axioms G3D.KTie.Kvec.length_cast
+#print axioms G3D.Tie.m_ConvexPolygon_length_eq
+#print axioms G3D.Tie.segments_lenSq
